@@ -473,6 +473,15 @@ func judgeScaleCase(t testing.TB) func(c scaleCase, rec *hx.Rec) string {
 		}
 		// linear growth gives a factor of about 5; quadratic 25. Only judged when the larger run is long enough to be measured reliably.
 		if t5 > 300000 && t5 > 12*t1 {
+			// timing is noisy on a busy machine: measure once more and keep the better numbers
+			if a, m1 := measure(c.N); m1 == "" && a < t1 {
+				t1 = a
+			}
+			if b, m5 := measure(5 * c.N); m5 == "" && b < t5 {
+				t5 = b
+			}
+		}
+		if t5 > 300000 && t5 > 12*t1 {
 			return fmt.Sprintf("family %s: %d units take %d ms but %d units take %d ms (x%.1f for x5 input): time is not proportional to the size of the input", c.Family, c.N, t1/1000, 5*c.N, t5/1000, float64(t5)/float64(t1))
 		}
 		if rec != nil {
